@@ -507,7 +507,7 @@ func ruleEFF4(w *World) []Ob {
 			var grow *ssa.Call
 			allInstrs(fn, func(in2 ssa.Instruction) {
 				c, ok := in2.(*ssa.Call)
-				if ok && c.Common().IsInvoke() && c.Common().Method.Name() == "grow" && c.Block().Dominates(bc.Block()) {
+				if ok && c.Common().IsInvoke() && methodName(c.Common().Method) == "grow" && c.Block().Dominates(bc.Block()) {
 					grow = c
 				}
 			})
@@ -519,7 +519,7 @@ func ruleEFF4(w *World) []Ob {
 			evOK := false
 			allInstrs(fn, func(in2 ssa.Instruction) {
 				c, ok := in2.(*ssa.Call)
-				if !ok || !c.Common().IsInvoke() || c.Common().Method.Name() != "enableValidation" {
+				if !ok || !c.Common().IsInvoke() || methodName(c.Common().Method) != "enableValidation" {
 					return
 				}
 				if !sameVar(c.Common().Value, grow.Common().Value) {
@@ -601,6 +601,50 @@ func ruleEFF4(w *World) []Ob {
 				l.ok(p.FuncID(fn), construct, p.InstrPos(c), fmt.Sprintf("%d hand-over(s) of the root, all on the nil-error side", nSend), true, "forward")
 			}
 		})
+	}
+	// (b2) every root that enters a grower stage is assembled: the per-root call of the recursive assembler is not
+	// skipped for some roots (a fast path for "simple" roots skips their validation and cache reset as well)
+	for _, pp := range []*Prog{p, w.W()} {
+		l.cfg = pp.Cfg.Name
+		for _, fn := range libFuncs(pp) {
+			if pp.Cfg.Name == "W" && !wOnlyFunc(w, fn) {
+				continue
+			}
+			if !strings.Contains(recvTypeName(fn), "rower") {
+				continue
+			}
+			num := numbered{}
+			allInstrs(fn, func(in ssa.Instruction) {
+				c, ok := in.(*ssa.Call)
+				if !ok || c.Common().StaticCallee() == nil || !pp.InModule(c.Common().StaticCallee()) {
+					return
+				}
+				callee := c.Common().StaticCallee()
+				if outermost(fn) == callee || !callsItself(callee) || !strings.Contains(recvTypeName(callee), "rower") || len(c.Common().Args) < 2 || !isNodePtr(c.Common().Args[1].Type()) {
+					return
+				}
+				root := c.Common().Args[1]
+				construct := num.name("every root goes through " + fname(callee))
+				bad := ""
+				for _, g := range guardsOf(c.Block()) {
+					cond, _ := flattenCond(g.Cond, g.Pol)
+					if isRangeLoopCond(cond) || isIndexLoopCond(cond) {
+						continue
+					}
+					if tv, _, isNil := nilTest(g.Cond, g.Pol); isNil && sameVar(tv, root) {
+						continue // a nil root is skipped
+					}
+					if dependsOnValue(cond, root, 0) {
+						bad = "the call is made only when " + describeValue(cond) + " (a condition on the root itself) holds, at " + pp.InstrPos(g.If)
+					}
+				}
+				if bad != "" {
+					l.bad(pp.FuncID(fn), construct, pp.InstrPos(c), bad+": roots on the other side are handed on without branch assembly, cache reset and name validation", "grow-all")
+				} else {
+					l.ok(pp.FuncID(fn), construct, pp.InstrPos(c), "no condition on the root guards the per-root assembly", true, "grow-all")
+				}
+			})
+		}
 	}
 	// (c) validatePath atoms, (d) guards of the validatePath call — in D and W
 	for _, pp := range []*Prog{p, w.W()} {
